@@ -437,3 +437,7 @@ Qed.
 Example C15_guard_accepts_collector_then_text :
   match prepare 10 "(a)b" with Ok p => kc_fragment lit0 re0 nstr0 vstr0 p doc_ab | _ => false end = true.
 Proof. vm_compute. reflexivity. Qed.
+
+(* Every remaining statement of this file, so that none is left unaudited. *)
+Print Assumptions C15_kw_fragment_in_guard.
+Print Assumptions C15_collector_nonscalar_refuted.
